@@ -164,7 +164,9 @@ func (s *Linear) Nice(o TickOptions) {
 
 	firstN, lastN, spacing := s.spacingAtLevel(level, true)
 	min, max := firstN*spacing, lastN*spacing
-	if math.IsNaN(min) || math.IsInf(min, 0) || math.IsNaN(max) || math.IsInf(max, 0) || min > s.Min || max < s.Max {
+	if math.IsNaN(min) || math.IsInf(min, 0) || math.IsNaN(max) || math.IsInf(max, 0) {
+		// The only level with few enough ticks has a
+		// spacing that overflows; leave the domain alone.
 		return
 	}
 	s.Min, s.Max = min, max
